@@ -54,6 +54,8 @@ def initial_content(kind: str, st: dict | None) -> bytes:
     code = "value1 := 1;\nvalue2 := 2;\n"
     if kind == "empty":
         return b""
+    if kind == "longcode":   # more than 4 KiB of code below the place where the header goes
+        return "".join(f"value{n} := {n} + {n};  -- line {n} of a long file\n" for n in range(1, 130)).encode()
     if kind == "binary7":    # binary by content (control characters throughout) although every byte is valid UTF-8
         return bytes([1, 2, 3, 4, 5, 6, 7, 8, 14, 15, 16, 17, 18, 19, 20, 21, 22, 23, 24, 25, 26, 27, 28, 29, 30, 31, 127, 0]) * 40 + b"end"
     if kind == "latin1":     # a text file in a legacy encoding: not valid UTF-8, still text
